@@ -45,3 +45,15 @@ check("C14", "exploration",
       "Sequential-model history checker: 466 (quick) / 20k (thorough) seeded histories of full / resumed (id, ticket, TLS 1.3 PSK) handshakes, clock advances around both lifetimes, fatal alerts, closes, cache overflow, ticket-key rotation and forged / truncated / edited / foreign / replayed / in-progress credentials; the server's resumption decision is observed at ServerHello and must be justified by the model (issued, unexpired, not invalidated, same version/suite/EMS, same secret).",
       "The converse (valid credential must resume) only in quiet positive controls; stateless tickets are not invalidated by alerts.",
       "offline history checker against a sequential session-store model, fork-per-history, ASan+UBSan build", "3/C14")
+check("C03", "exploration",
+      "By-construction oracle: an own DER generator signs chains with libcrypto so that every generated chain carries the set of rule violations it contains; ~3.2k (quick) / 38k (thorough) chains over key types x lengths 1..5 x every single mutation operator at every position (thorough: operator pairs, order permutations, anchor sets); success with a non-empty label set is a violation, good chains must be accepted and are cross-checked with OpenSSL X509_verify_cert.",
+      "Success is read leniently (all indicators positive); name constraints / policies are not enabled in this configuration; Ed25519-signed CRLs cannot be parsed by the library, so revocation under Ed25519 issuers is not generated.",
+      "by-construction labelled-input monitor with an independent cross-check (OpenSSL), ASan+UBSan build", "3/C03")
+check("C05", "exploration",
+      "Reference matcher transcribed from the statement vs the library over ~108k (quick) / 2M (thorough) grammar-generated (expected name, certificate name set) pairs: soundness (library accepts => reference accepts), invariance under every permutation of the SAN list, acceptance of the canonical positive forms; ASan on exact-size buffers decides the C-string clause.",
+      "Non-canonical positives are recorded, not asserted; punycode names with '--' are refused by the library.",
+      "reference-model monitor + permutation metamorphic oracle, ASan+UBSan build", "3/C05")
+check("C06", "exploration",
+      "Per mode, role and flight every single-step deviation (delete, duplicate, swap, inject each of 16 message types at every position, premature CCS) of the one-message-per-record re-framed flight is fed message by message on a fork()ed clone; a reference grammar locates the first illegal message; the final Finished is replaced by the value the receiver expects over ITS transcript (computed with the library's snapshot function, sealed with the sender's keys), so a lax state machine shows up as a COMPLETED deviant handshake; ~2.4k cases per seed (quick).",
+      "The reference grammar is a reading of the RFCs restricted to messages this build emits; DTLS judged on deleted messages only; deviations in non-final flights cannot be continued by a consistent peer (the honest peer stops).",
+      "reference-grammar monitor with a transcript-consistent deviant peer on fork-cloned handshakes, ASan+UBSan build", "3/C06")
